@@ -257,6 +257,13 @@ def run(chk):
         sparams = [p.arg for p in params if p.annotation is not None and ast.unparse(p.annotation) in ("str", "'str'")]
         chk.instance("R10.2")
         spec_params = [p.arg for p in params if p.annotation is not None and "Specifier" in ast.unparse(p.annotation)]
+        owner = q.split(".")[0] if "." in q else ""
+        if params and params[0].arg == "self" and params[0].annotation is None:
+            # a memoised METHOD: the instance itself is part of the key (by its __eq__/__hash__)
+            if "Specifier" in owner:
+                spec_params.append("self")
+            elif "Marker" in owner:
+                mparams.append("self")
         if spec_params:
             # specifier equality ignores the `simplified` text hint and the spelling of versions (3.10 == 3.10.0): a memoised
             # function that renders text from such a parameter returns whatever spelling was seen first
